@@ -15,11 +15,11 @@ META = {
     'decides': 'for every int solve code: each StdBackend range predicate is true exactly on its documented range; '
                'the enum constants equal the documented numbers; the objective value is written into the solve '
                'message exactly when the code indicates a solution candidate and an objective value exists',
-    'not_decided': 'that the code written to the .sol file equals SolveCode() (pass-through across HandleSolution -> '
-                   'SolutionWriterImpl -> WriteSolFile, C++ formatting code); the -! table; overriding of the virtual '
-                   'predicates by solver drivers (grep-level fact only)',
-    'not_under_contract': ['BasicSolver::AddSolveResults / SolveResultRegistry', 'SolutionWriterImpl::HandleSolution',
-                           'mp::WriteSolFile (solve code line)'],
+    'not_decided': 'the virtual dispatch between the hops of the pass-through (ReportSolution2AMPL -> HandleSolution -> '
+                   'SolutionWriterImpl::HandleSolution -> SolutionAdapter -> WriteSolFile is proved hop by hop: the call made by each hop carries '
+                   'the code it received; that the callee reached is the next hop is C++ dispatch, read off the source); the -! table; '
+                   'overriding of the virtual predicates by solver drivers (grep-level fact only)',
+    'not_under_contract': ['BasicSolver::AddSolveResults / SolveResultRegistry', 'AppSolutionHandlerImpl::HandleSolution (wantsol branches)'],
     'assumptions': ['SolveCode() is rendered as a read of one ghost int (it is virtual; no override in include/ or solvers/visitor)',
                     'assert() is kept as a checked obligation under the precondition code != NOT_SET'],
     'trusted_base': [],
@@ -176,6 +176,126 @@ void harness(void) {
                    note='modular: uses the contract of IsProblemSolvedOrFeasible')
 
 
+SOLIO = 'include/mp/solver-io.h'
+
+
+def passthrough_report():
+    """last statement of ReportSolution2AMPL: the code handed to the solution handler is SolveCode(), the objective value the one
+    selected by the objective block"""
+    parts = [PRELUDE, ENUM, '''
+double obj_value; int g_handled_code, g_calls; double g_handled_obj;
+
+struct { struct { bool e; double *d; } primal, dual; } sol;
+#define vp_empty(v) ((v).e)
+#define vp_data(v) ((v).d)
+const char *writer_c_str(void) { return "msg"; }
+/* classification predicates a changed call might consult: arbitrary (their contracts are proved separately) */
+bool IsProblemSolved(void) { return nondet_bool(); }
+bool IsProblemSolvedOrFeasible(void) { return nondet_bool(); }
+bool IsProblemInfeasible(void) { return nondet_bool(); }
+bool IsProblemUnbounded(void) { return nondet_bool(); }
+void HandleSolution(int code, const char *msg, const double *x, const double *y, double obj) { g_calls++; g_handled_code = code; g_handled_obj = obj;
+  __CPROVER_assert(x == (sol.primal.e ? (double *)0 : sol.primal.d), "the primal vector handed on is the solution's (null when empty)");
+  __CPROVER_assert(y == (sol.dual.e ? (double *)0 : sol.dual.d), "the dual vector handed on is the solution's (null when empty)"); }
+''',
+             Fn(BACKEND, r'HandleSolution\((?=[^;]*sol\.dual\.data\(\), obj_value\);)', 'void vp_report_handle(void)', block_end=r'sol\.dual\.data\(\), obj_value\);',
+                contract='__CPROVER_requires(g_calls == 0) '
+                         '__CPROVER_ensures(g_calls == 1 && g_handled_code == g_sc && (g_handled_obj == obj_value || obj_value != obj_value)) '
+                         '__CPROVER_assigns(g_calls, g_handled_code, g_handled_obj)',
+                subst=[(r'writer\.c_str\(\)', 'writer_c_str()', 1), (r'sol\.(primal|dual)\.empty\(\)', r'vp_empty(sol.\1)', 2),
+                       (r'sol\.(primal|dual)\.data\(\)', r'vp_data(sol.\1)', 2)],
+                label='mp::StdBackend::ReportSolution2AMPL [HandleSolution call]'),
+             '''
+int vp_in_sc;
+void harness(void) { vp_one = 1; g_sc = nondet_int(); vp_in_sc = g_sc; obj_value = nondet_double(); g_calls = 0;
+  sol.primal.e = nondet_bool(); sol.dual.e = nondet_bool(); sol.primal.d = nondet_ptr(); sol.dual.d = nondet_ptr();
+  vp_report_handle(); VP_REACH("normal return"); }
+''']
+    return Harness('C10.passthrough.ReportSolution2AMPL', 'C10', parts, enforce='vp_report_handle', inputs=['vp_in_sc'],
+                   stubs=['HandleSolution (ghost record)', 'SolveCode()', 'std::vector empty()/data()'],
+                   note='first hop of "the code written to the .sol file is the code the backend reported"')
+
+
+def passthrough_writer(ordinal, which):
+    """SolutionWriterImpl::HandleSolution: the SolutionAdapter handed to the .sol writer carries the status it was given, one value per
+    variable / per algebraic constraint (or none when the vector is absent) and the objective number that was used"""
+    parts = [PRELUDE, '''
+int g_nv, g_nc, g_objno_used;
+int builder_num_vars(void) { return g_nv; }
+int builder_num_algebraic_cons(void) { return g_nc; }
+int solver_objno_used(void) { return g_objno_used; }
+/* other accessors of the solver a changed call might use: arbitrary values */
+int solver_objno_specified(void) { return nondet_int(); }
+int solver_objno(void) { return nondet_int(); }
+int solver_multiobj(void) { return nondet_int(); }
+int g_a_status, g_a_nvalues, g_a_nduals, g_a_objno, g_made; const double *g_a_values, *g_a_duals;
+struct AR { const double *p; long n; };
+static struct AR MakeArrayRef(const double *p, long n) { struct AR r; r.p = p; r.n = n; return r; }
+static void vp_SolutionAdapter(int status, int builder, const char *msg, int options, struct AR values, struct AR duals, int objno) {
+  g_made++; g_a_status = status; g_a_values = values.p; g_a_nvalues = (int)values.n; g_a_duals = duals.p; g_a_nduals = (int)duals.n; g_a_objno = objno; }
+''',
+             Fn(SOLIO, r'SolutionAdapter<PB> sol\(\s*status, &builder_,', 'void vp_make_adapter(int status, const char *message, const double *values, const double *dual_values)',
+                block_end=r'solver_\.\w+\(\)\);',
+                contract='__CPROVER_requires(g_made == 0 && g_nv >= 0 && g_nc >= 0) '
+                         '__CPROVER_ensures(g_made == 1 && g_a_status == status && g_a_objno == g_objno_used) '
+                         '__CPROVER_ensures(g_a_values == values && g_a_nvalues == (values ? g_nv : 0) && g_a_duals == dual_values && g_a_nduals == (dual_values ? g_nc : 0)) '
+                         '__CPROVER_assigns(g_made, g_a_status, g_a_values, g_a_nvalues, g_a_duals, g_a_nduals, g_a_objno)',
+                subst=[(r'SolutionAdapter<PB> sol\(', 'vp_SolutionAdapter(', 1), (r'&builder_,', '0,', 1), (r'message\.c_str\(\)', 'message', 1), (r'options_,', '0,', 1),
+                       (r'builder_\.', 'builder_', 2), (r'solver_\.', 'solver_', 1)],
+                ordinal=ordinal, label='mp::internal::SolutionWriterImpl::%s [SolutionAdapter construction]' % which),
+             '''
+void harness(void) { vp_one = 1; g_nv = nondet_int(); g_nc = nondet_int(); g_objno_used = nondet_int(); g_made = 0;
+  vp_make_adapter(nondet_int(), "m", nondet_bool() ? (const double *)&g_nv : (const double *)0, nondet_bool() ? (const double *)&g_nc : (const double *)0);
+  VP_REACH("normal return"); }
+''']
+    return Harness('C10.passthrough.SolutionWriter.' + which, 'C10', parts, enforce='vp_make_adapter',
+                   stubs=['SolutionAdapter constructor (ghost record)', 'builder_.num_vars()/num_algebraic_cons()', 'solver_.objno_used() (C12)'],
+                   note='second hop; also carries "one value per variable / algebraic constraint" (C04) and "objno echoed is the one used" (C12)')
+
+
+def passthrough_adapter():
+    """SolutionAdapter: constructor (member initialiser list) and accessors: what WriteSolFile reads is what was stored"""
+    parts = [PRELUDE, '''
+struct AR { const double *p; long n; };
+struct OR { const long *p; long n; };
+int status_; int builder_; const char *message_; struct OR options_; struct AR values_, dual_values_; int objno_;
+#define vp_size(a) ((a).n)
+''',
+             Fn(SOLIO, r'SolutionAdapter\(int status, ProblemBuilder \*pb, const char \*message,', 'void SolutionAdapter_ctor(int status, int pb, const char *message, struct OR options, struct AR values, struct AR dual_values, int on)',
+                contract='__CPROVER_ensures(status_ == status && objno_ == on && values_.n == values.n && values_.p == values.p && dual_values_.n == dual_values.n && '
+                         'dual_values_.p == dual_values.p && options_.n == options.n && options_.p == options.p && message_ == message) '
+                         '__CPROVER_assigns(status_, builder_, message_, options_, values_, dual_values_, objno_)',
+                label='mp::SolutionAdapter::SolutionAdapter (member initialiser list)', nmatches=1),
+             Fn(SOLIO, r'int status\(\) const \{ return status_; \}', 'int SolutionAdapter_status(void)',
+                contract='__CPROVER_ensures(__CPROVER_return_value == status_) __CPROVER_assigns()', label='mp::SolutionAdapter::status', nmatches=1),
+             Fn(SOLIO, r'int objno\(\) const \{ return objno_; \}', 'int SolutionAdapter_objno(void)',
+                contract='__CPROVER_ensures(__CPROVER_return_value == objno_) __CPROVER_assigns()', label='mp::SolutionAdapter::objno', nmatches=1),
+             Fn(SOLIO, r'int num_values\(\) const', 'int SolutionAdapter_num_values(void)', subst=[(r'values_\.size\(\)', 'vp_size(values_)', 1)],
+                contract='__CPROVER_requires(0 <= values_.n && values_.n <= INT_MAX) __CPROVER_ensures(__CPROVER_return_value == values_.n) __CPROVER_assigns()',
+                label='mp::SolutionAdapter::num_values', nmatches=1),
+             Fn(SOLIO, r'int num_dual_values\(\) const', 'int SolutionAdapter_num_dual_values(void)', subst=[(r'dual_values_\.size\(\)', 'vp_size(dual_values_)', 1)],
+                contract='__CPROVER_requires(0 <= dual_values_.n && dual_values_.n <= INT_MAX) __CPROVER_ensures(__CPROVER_return_value == dual_values_.n) __CPROVER_assigns()',
+                label='mp::SolutionAdapter::num_dual_values', nmatches=1),
+             '''
+void harness(void) { vp_one = 1;
+  struct OR o; o.p = nondet_ptr(); o.n = nondet_long(); struct AR v, d; v.p = nondet_ptr(); v.n = nondet_long(); d.p = nondet_ptr(); d.n = nondet_long();
+  int which = nondet_int();
+  if (which == 0) SolutionAdapter_ctor(nondet_int(), 0, "m", o, v, d, nondet_int());
+  else { status_ = nondet_int(); objno_ = nondet_int(); values_ = v; dual_values_ = d;
+    if (which == 1) SolutionAdapter_status(); else if (which == 2) SolutionAdapter_objno(); else if (which == 3) SolutionAdapter_num_values(); else SolutionAdapter_num_dual_values(); }
+  VP_REACH("normal return"); }
+''']
+    return parts
+
+
+def passthrough_adapter_harnesses():
+    hs = []
+    for fn in ('SolutionAdapter_ctor', 'SolutionAdapter_status', 'SolutionAdapter_objno', 'SolutionAdapter_num_values', 'SolutionAdapter_num_dual_values'):
+        hs.append(Harness('C10.passthrough.' + fn, 'C10', passthrough_adapter(), enforce=fn,
+                          stubs=['mp::ArrayRef (pointer + size)'], note='third hop: what WriteSolFile (C05.WriteSolFile) reads is what was stored'))
+    return hs
+
+
 _drv = [None]
 
 
@@ -200,4 +320,5 @@ def harnesses(tier, seed):
     hs.append(retrieved_harness())
     hs.append(enum_harness())
     hs.append(message_harness())
+    hs += [passthrough_report(), passthrough_writer(0, 'HandleFeasibleSolution'), passthrough_writer(1, 'HandleSolution')] + passthrough_adapter_harnesses()
     return hs
